@@ -11,6 +11,7 @@ from __future__ import annotations
 
 import asyncio
 import heapq
+import math
 import random
 import typing as t
 
@@ -58,9 +59,9 @@ class SimLoop(asyncio.BaseEventLoop):
         self._steps += 1
         if self._steps > self.max_steps:
             raise Deadlock("step cap reached")
-        if timeout == 0:
+        if timeout == 0 or getattr(self, "_shutting_down", False):
             return
-        t_timer = None if timeout is None else self._vt + int(round(timeout * 1e9))
+        t_timer = None if timeout is None else self._vt + int(math.ceil(timeout * 1e9))
         if self._ext and (t_timer is None or self._ext[0][0] <= t_timer):
             when, _tie, _seq, cb, label = heapq.heappop(self._ext)
             if when > self._vt:
@@ -159,12 +160,29 @@ class SimLoop(asyncio.BaseEventLoop):
             asyncio.set_event_loop(None)
 
     def shutdown(self):
+        """Unwind whatever is still pending (a blocked main task after a stall) quietly, then close."""
+        self._ext.clear()
+        self._shutting_down = True
         try:
-            # cancel leftovers so that close() is quiet
-            for task in asyncio.all_tasks(self):
-                task.cancel()
+            pending = [t_ for t_ in asyncio.all_tasks(self) if not t_.done()]
         except RuntimeError:
+            pending = []
+        for task in pending:
+            task._log_destroy_pending = False
+            task.cancel()
+        asyncio.set_event_loop(self)
+        try:
+            for _ in range(200):
+                if not self._ready:
+                    break
+                self._run_once()
+        except BaseException:  # noqa: BLE001 - best effort cleanup only
             pass
+        finally:
+            asyncio.set_event_loop(None)
+        for task in pending:
+            if task.done() and not task.cancelled():
+                task.exception()  # mark retrieved
         self._ext.clear()
         self._ready.clear()
         self._scheduled.clear()
@@ -238,10 +256,12 @@ class SimTransport(net.Conn, asyncio.Transport):
         def cb():
             self.peer.on_client_close(self)
 
-        loop.schedule_ext(loop.draw_latency_ns(), cb, f"close{self.cid}", self._last_tx + 1)
+        if not getattr(loop, "_shutting_down", False):
+            loop.schedule_ext(loop.draw_latency_ns(), cb, f"close{self.cid}", self._last_tx + 1)
         if not self._lost:
             self._lost = True
-            loop.call_soon(self._protocol.connection_lost, None)
+            if not loop.is_closed():
+                loop.call_soon(self._protocol.connection_lost, None)
 
     def abort(self) -> None:
         self.close()
